@@ -36,6 +36,7 @@ var c19Special = []string{
 	"--bb=a", "--bb=b=", "--bb=", "--b=b", "--b=b1", "--b=b1x", "--é=x", "--a=", "-b=b", "--bb=ab",
 	"\x00", "--\x00", "--b=\x00", "-\x00", "%s%d%v", "--%s", "--b=%!d(string=x)", "--ab=1..2..3", "-1..5", "--ab=0x1..0x5",
 	"--ab=1..10..0", "1..2..000", "--ab=1..9..2", "--ab=5..1..-1", "--ab=1..3..", "0..1..+0", "a=b=c", "level=d", "=a", "a==", "a-very-long-word-before-the-equal-sign=d", "x=" + strings.Repeat("y", 100), strings.Repeat("k", 100) + "=",
+	"\\", "a\\", "a,b\\", "a\\,b", `C:\Users\me\`, "a,,b", ",", // backslashes and separators (list-valued environment variables, escapes)
 }
 
 func defC19(mode, unknown int, ro bool) *ph.Def {
@@ -43,10 +44,10 @@ func defC19(mode, unknown int, ro bool) *ph.Def {
 		Opts: []ph.OptDef{
 			{Name: "a", Kind: ph.Bool, Aliases: []string{"aa"}},
 			{Name: "b", Kind: ph.Str, Env: "VERIF_C19_B", Suggested: []string{"b1", "b2"}},
-			{Name: "ab", Kind: ph.IntS, Min: 1, Max: 3},
+			{Name: "ab", Kind: ph.IntS, Min: 1, Max: 3, Env: "VERIF_C19_L"},
 			{Name: "1", Kind: ph.FltS, Min: 1, Max: 2},
 			{Name: "é", Kind: ph.StrOpt, DefS: "E"},
-			{Name: "bb", Kind: ph.Map, Min: 1, Max: 2, Suggested: []string{"a=", "b=", "ab=x"}},
+			{Name: "bb", Kind: ph.Map, Min: 1, Max: 2, Suggested: []string{"a=", "b=", "ab=x"}, Env: "VERIF_C19_M"},
 			{Name: "i", Kind: ph.Int, Env: "VERIF_C19_I"},
 			{Name: "f", Kind: ph.FltOpt, Env: "VERIF_C19_F"},
 			{Name: "n", Kind: ph.Incr},
@@ -103,13 +104,14 @@ func defsC19Texts() []*ph.Def {
 			root := ph.CmdDef{Name: text("self", "prog"), Desc: text("self", "a program"),
 				Opts: []ph.OptDef{o, {Name: "flag", Kind: ph.Bool}, {Name: "req", Kind: ph.Int, Required: true, Desc: text("desc", "")}},
 				Cmds: []*ph.CmdDef{
-					{Name: cmdName, Desc: text("desc", "a command"), SynArgs: [][2]string{{text("synarg", "<f>"), text("desc", "file")}},
+					{Name: cmdName, Desc: text("desc", "a command"), SynArgs: [][2]string{{text("synarg", "<f>"), text("desc", "file")}}, ReqArgs: 2, // the function asks for one argument more than it named
 						Opts: []ph.OptDef{{Name: "co", Kind: ph.StrS, Min: 1, Max: 2, ArgName: text("argname", ""), Desc: text("desc", "")}},
 						Cmds: []*ph.CmdDef{{Name: "sub", Desc: text("desc", "")}}},
 					{Name: "zz"},
 				}}
 			if is("synarg") {
 				root.SynArgs = [][2]string{{t, "d"}, {"<x>", t}}
+				root.ReqArgs = 3
 			}
 			for mode := 0; mode < 3; mode++ {
 				out = append(out, &ph.Def{Mode: mode, Unknown: 2, Help: "help", Root: root})
@@ -123,7 +125,7 @@ func defsC19Texts() []*ph.Def {
 func c19DefCases(def *ph.Def) (argvs [][]string, lines []string) {
 	cmd := def.Root.Cmds[0].Name
 	on := def.Root.Opts[0].Name
-	argvs = [][]string{{}, {"--help"}, {"help"}, {"help", cmd}, {cmd}, {cmd, "--help"}, {cmd, "help"}, {cmd, "help", "sub"}, {cmd, "sub", "--help"}, {"--req=1"}, {"--req=1", cmd}, {"--" + on + "=v", "--req", "1", cmd, "sub"}, {"--" + on}, {"-" + on, "v"}, {"zz", "help"}, {"help", "nosuch"}}
+	argvs = [][]string{{}, {"--help"}, {"help"}, {"help", cmd}, {cmd}, {cmd, "--help"}, {cmd, "help"}, {cmd, "help", "sub"}, {cmd, "sub", "--help"}, {"--req=1"}, {"--req=1", cmd}, {"--" + on + "=v", "--req", "1", cmd, "sub"}, {"--" + on}, {"-" + on, "v"}, {"zz", "help"}, {"help", "nosuch"}, {cmd, "x"}, {"--req=1", "x", "y"}, {"--req=1", "x"}}
 	if len(def.Root.Opts[0].Aliases) > 0 {
 		argvs = append(argvs, []string{"-" + def.Root.Opts[0].Aliases[0], "v", "--req=1"})
 	}
@@ -223,9 +225,9 @@ func init() {
 	parserJudges["C19"] = judgeC19
 	register(&Check{
 		ID:        "C19",
-		QuickSecs: 300, ThoroSecs: 1500,
-		Rule: "input-space exploration at byte level: tokens = all byte strings of length <= 3 over 13 bytes {- = a b . 1 space newline : / 0xC3 0xA9 0xFF} (2380) plus 73 special tokens (10^4-byte and deeply bundled tokens, int ranges with spans <= 10^4 including ranges ending at the int64 limits, numeric limits, format verbs, NUL); " +
-			"every single token x 18 configurations (plus 3 warn-mode configurations in which every Write on Writer fails), every pair over a subset of Np tokens, every triple over Nt tokens, the same strings as COMP_LINE (bash and zsh, both argument conventions) and as environment values of bound options; a family of definitions in which each of 15 texts (long, multibyte, combining, wide, format verbs, blanks, newline) takes each role (command name, option name, alias, argument name, description, synopsis argument, program name) x 3 modes, each with 17 command lines, 9 completion lines and Help() of every level; the command-tree shapes of C10 (depth <= 2, wrappers, commands and root without a function, with and without the built-in help) on every command line of length <= 2 over 16 tokens; Parse, Dispatch and Help run under recover with a budget of 10^6 loop iterations per call (instrumented loops); " +
+		QuickSecs: 900, ThoroSecs: 1500,
+		Rule: "input-space exploration at byte level: tokens = all byte strings of length <= 3 over 13 bytes {- = a b . 1 space newline : / 0xC3 0xA9 0xFF} (2380) plus 80 special tokens (10^4-byte and deeply bundled tokens, int ranges with spans <= 10^4 including ranges ending at the int64 limits, numeric limits, format verbs, NUL); " +
+			"every single token x 18 configurations (plus 3 warn-mode configurations in which every Write on Writer fails), every pair over a subset of Np tokens, every triple over Nt tokens, the same strings as COMP_LINE (bash and zsh, both argument conventions) and as environment values of bound options; a family of definitions in which each of 15 texts (long, multibyte, combining, wide, format verbs, blanks, newline) takes each role (command name, option name, alias, argument name, description, synopsis argument, program name) x 3 modes, each with 20 command lines, 9 completion lines and Help() of every level; the command-tree shapes of C10 (depth <= 2, wrappers, commands and root without a function, with and without the built-in help) on every command line of length <= 2 over 16 tokens; Parse, Dispatch and Help run under recover with a budget of 10^6 loop iterations per call (instrumented loops); " +
 			"oracle: no panic, budget never exhausted, a failed Parse returns nil remaining and a non-nil error, completion leaves through the exit path; distinct_nontrivial = distinct inputs executed",
 		Assume: []string{"tokens outside the byte alphabet and longer sequences are not covered", "a hang is detected as exhaustion of the loop-iteration budget, not by wall-clock"},
 		Run: func(c *RunCtx) {
@@ -430,7 +432,7 @@ func init() {
 						if strings.Contains(t, "\x00") {
 							continue // not representable in the environment
 						}
-						env := map[string]string{"VERIF_C19_B": t, "VERIF_C19_I": t, "VERIF_C19_F": t, "VERIF_C19_T": t}
+						env := map[string]string{"VERIF_C19_B": t, "VERIF_C19_I": t, "VERIF_C19_F": t, "VERIF_C19_T": t, "VERIF_C19_L": t, "VERIF_C19_M": t}
 						one("environment_value_cases", def, env, []string{})
 						one("environment_value_cases", def, env, []string{"--i", "--b"})
 					}
